@@ -8,6 +8,8 @@ R19.1  document mapping keys are normalised before type-sensitive use: a key obt
 R19.2  sibling call sites agree: path-level and operation-level parameters are parsed with the same naming context
        (otherwise the name of a promoted inline schema depends on where / in which order it is declared)
 R19.3  response selection does not depend on the order of the `responses` mapping  [= R5.1 normal form]
+R19.9  names invented for inline schemas derive from the enclosing named context, not from a constant numbered in encounter order  [finding on the pinned tree]
+R19.8  references find an already registered schema by its declared name (raw-name index): no order-dependent second parse        [= R2.15]
 R19.7  a memo table kept on the parsing context is keyed by every parameter the stored conversion depends on (no first-caller-wins entries)
 R19.4  the loader dispatches on the file content, not on a lossy heuristic: JSON and YAML go through json.loads /
        yaml.safe_load only
@@ -21,6 +23,7 @@ from typing import Dict, List, Optional, Set, Tuple
 from rules._siblings import kw_signature, priority_signature
 from rules.c05 import EXPECTED_SIG
 from sa.model import AnalysisError, Function, Repo, calls_in, const_str, dotted, norm, own_nodes, parent
+from sa.match import Locals
 from sa.report import Report
 
 
@@ -66,6 +69,12 @@ def run(repo: Repo, rep: Report, tier: str) -> None:
     persistent_memo_rule(repo, rep, "R19.7", ("core.loader", "core.parsing"),
                          "The entry computed for the operation that happens to be parsed first (including the name of an inline schema promoted for it) is "
                          "then served to every other operation: which models exist depends on the order of `paths` in the document")
+    # R19.8: a schema referenced before / after its declaration is the same model: references find the registered schema through the
+    # raw-name index instead of parsing it again (which copy a property bound to depended on the order of components.schemas)  [= R2.15]
+    from rules._registry import rule_raw_name_index
+
+    rule_raw_name_index(repo, rep, "R19.8")
+    rule_invented_names_are_order_free(repo, rep, "R19.9")
     strict = _strict_params(repo)
     rep.count("R19.1:type_strict_parser_parameters", {k: sorted(v) for k, v in strict.items()})
     # ---------------------------------------------------------------- R19.1
@@ -326,3 +335,40 @@ def rule_no_state_between_entries(repo: Repo, rep: Report, rule: str = "R19.6") 
                     rep.ok(rule, sub, "every local the body assigns is assigned before it is read in each iteration", fn.loc(loop))
     rep.count(f"{rule}:items_loops", n_loops)
     rep.require(n_loops >= 6, f"{rule}: only {n_loops} items-loops found in the loader / schema parser (floor 6)")
+
+
+# ------------------------------------------------------------------------------------------------ R19.9 invented names do not depend on encounter order
+def rule_invented_names_are_order_free(repo: Repo, rep, rule: str = "R19.9") -> None:
+    """A schema without a name of its own (the inline `items` of an anonymous array) gets an invented one.  When that name is a *constant*
+    base made unique by counting up against the registry (`AnonymousArrayItem`, `AnonymousArrayItem2`, ...), which schema receives which
+    name is decided by the order in which the document is walked: reordering `paths` swaps the models behind the names (and the names in
+    the signatures).  An invented name must be derived from the enclosing named context (schema / operation), not from a counter over
+    what happens to be registered already."""
+    sp = repo.module("core.parsing.schema_parser")
+    n = 0
+    for q, fn in sp.functions.items():
+        L = Locals(fn.node)
+        for w in [x for x in own_nodes(fn.node) if isinstance(x, ast.While)]:
+            t = w.test
+            if not (isinstance(t, ast.Compare) and len(t.ops) == 1 and isinstance(t.ops[0], ast.In) and isinstance(t.left, ast.Name)
+                    and isinstance(t.comparators[0], ast.Attribute) and t.comparators[0].attr == "parsed_schemas"):
+                continue
+            var = t.left.id
+            # the first definition of the name (before the counting loop)
+            first = [v for k, v, st in L.defs.get(var, []) if v is not None and getattr(st, "lineno", 0) < w.lineno]
+            consts: List[str] = []
+            for v in first:
+                vi = L.inline(v, stop=tuple(L.params))
+                for b in ast.walk(vi):
+                    if isinstance(b, ast.BoolOp) and isinstance(b.op, ast.Or):
+                        consts += [c.value for c in b.values if isinstance(c, ast.Constant) and isinstance(c.value, str) and c.value]
+            n += 1
+            sub = f"{sp.relpath}:{q} name invented for an inline schema (counting loop #{n})"
+            if consts:
+                rep.violation(rule, sub, f"{fn.fq}|constant-base-numbered-in-encounter-order|{consts[0]}|#{n}",
+                              f"when the enclosing schema has no name the base is the constant `{consts[0]}` and uniqueness comes from counting up against the registry: "
+                              "with two anonymous arrays of objects, reordering `paths` swaps which item model is `…Item` and which `…Item2` (fields and signatures "
+                              "trade places)", fn.loc(w))
+            else:
+                rep.ok(rule, sub, "the base of the invented name comes from the enclosing named context", fn.loc(w))
+    rep.require(n >= 1, f"{rule}: no name-counting loop over parsed_schemas found in schema_parser (anchor)")
